@@ -312,6 +312,43 @@ func runC08(c *mon.Ctx) {
 			try(fmt.Sprintf("bufio=%d", bs), s.Bytes, DemuxCfg{PacketSize: 188, Reader: "bufio", BufioSize: bs, API: api}, false, "full+small-bufio")
 			c.Count("small_bufio_runs")
 		}
+		// (b5) a detection that fails first: 193 bytes that begin with a sync byte but show no second one where a packet could end,
+		// then the stream. The first call reports the failure; the application calls again and gets every packet, whatever the
+		// reader is and however it fragments the bytes (a failed detection consumes its 193 bytes, no more, no less)
+		{
+			leader := append([]byte{0x47}, gen.Bytes(r, 192)...)
+			for k := 188; k < 193; k++ {
+				if leader[k] == 0x47 {
+					leader[k] = 0x48
+				}
+			}
+			in := append(leader, s.Bytes...)
+			api := []string{"data", "packet"}[r.IntN(2)]
+			// (the input is not a well-formed stream, so reader kinds are not compared with each other here: a seekable reader
+			// rewinds to the very start after the detection that succeeds. What is compared is the same kind of reader, a
+			// bufio.Reader, across buffer sizes and read fragmentations)
+			want := RunDemux(in, DemuxCfg{Reader: "bufio", BufioSize: 4096, API: api})
+			k1 := 1 + r.IntN(400)
+			for _, cf := range []DemuxCfg{{Reader: "bufio", BufioSize: 16}, {Reader: "bufio", BufioSize: 64}, {Reader: "bufio", BufioSize: 192}, {Reader: "bufio", BufioSize: 193},
+				{Reader: "bufio", BufioSize: 4096}} {
+				for _, ch := range []int{0, 1, 7, 188, k1} {
+					cf.API = api
+					cf.Chunk = nil
+					if ch > 0 {
+						n := ch
+						cf.Chunk = func(int) int { return n }
+					}
+					run := RunDemux(in, cf)
+					c.Count("retries_after_a_failed_detection")
+					cls := fmt.Sprintf("%s/auto/after-failed-detection", cf.Reader)
+					if run.Panic != "" {
+						c.Violate("C08/panic:"+cls, "streams", i, run.Panic, nil)
+					} else if d := itemsEqual(run.Items, want.Items); d != "" {
+						c.Violate("C08/differs-from-baseline:"+cls, "streams", i, fmt.Sprintf("bufio size %d, reads of %d bytes: %s", cf.BufioSize, ch, d), map[string]any{"stream": mon.Hex(in, 800)})
+					}
+				}
+			}
+		}
 		// (b4) a stream that ends inside the 193 bytes detection looks at: one whole packet and the first bytes of a truncated one
 		// (a truncated final packet is the end of the stream, C03). The sync byte of the second packet is there, detection has what it
 		// needs, and every reader kind must return the one packet
